@@ -46,6 +46,26 @@ PROPS["C07"] = {
     "assumptions": ["targets healthy and instantaneous, so commands take no virtual time", "go1.26.8 synctest"],
 }
 
+PROPS["C09"] = {
+    "test": "TestC09", "level": "exploration", "registered": True, "engine": "sim",
+    "shards_quick": 8, "shards_thorough": 16, "timeout": 900,
+    "technique": "runtime monitor over target-side probe and request logs in virtual time: health by latest completed probe, rotation windows, probe cadence",
+    "level_text": "1-5 targets with generated post-deployment probe scripts (flapping, failure/slow/refuse/close windows, all failing with staggered recovery) are probed by the real health checks in virtual time while sequential bursts, concurrent batches and pause/resume episodes (whose drain spans probe completions) are issued between probes. The oracle recomputes each target's health from its own probe log and checks: no request at a target whose latest completed probe failed, 503 iff no target is healthy, floor/ceil fairness over every window of every constant-health run, and the probe cadence s(k+1) <= max(s(k)+interval, e(k)).",
+    "level_note": "Trusted: synctest clock, fake-target logs. Requests within eps=100ms of a probe completion are ties. 'Keeps being probed' is restated as the cadence bound up to the end of the scenario.",
+    "rule": "classes: (healthy-set size / n targets, run length) for every rotation run with >=2 healthy targets, and (multiset of probe patterns, pause episodes present); non-trivial = a rotation run over >= 2 healthy targets or a non-constant probe script",
+    "assumptions": ["probe latencies are either instantaneous or 300ms beyond the probe timeout", "go1.26.8 synctest"],
+}
+
+PROPS["C17"] = {
+    "test": "TestC17", "level": "exploration", "registered": True, "engine": "sim",
+    "shards_quick": 8, "shards_thorough": 16, "timeout": 900,
+    "technique": "runtime monitor comparing exact virtual return instants of commands with bounds computed from target-side logs; probe logs watched after disposal",
+    "level_text": "Histories of 1-10 commands over two services with hostile targets (refusing, failing or hanging on probes, healthy after k probes), in-flight sets (finishing, never finishing, upgraded) and timeouts from {0, 1ms, 1s, 30s} run in virtual time with inert hooks. The oracle bounds every return instant (deploy <= deploy+drain timeout and <= the instant its condition was met; failed deploy at the deploy timeout; pause/stop <= drain timeout and <= the last natural finish; other commands 0) and watches the fake targets' probe logs for 30 intervals after each disposal and after removing every service.",
+    "level_note": "Trusted: synctest clock, fake-target logs; eps=100ms; first successes within 2 eps of the deploy deadline are ties. Overlapping commands (thorough tier only) are judged on the absolute bounds and the probe-leak clauses only.",
+    "rule": "a class is (command kind, outcome, number of requests open at issue, never-finishing present, drain timeout | failure kind); non-trivial = every recorded class (a command that had to wait or fail)",
+    "assumptions": ["go1.26.8 synctest"],
+}
+
 ENGINES = [
     {"name": "sim", "path": "/verif/harness (world_test.go)", "kind_free_text": "real internal/server code in a testing/synctest bubble (virtual time) on an in-memory network with scripted fake targets and hook-placed delays; monitors judge recorded events", "serves_properties": []},
 ]
